@@ -9,7 +9,7 @@ from vf.ref import coerce as C
 from vf import gqlfront
 
 META = {
-    "bounds": "schema X (vf/world.py) in 9 engine configurations (default/explicit resolvers, non-null layout, type resolvers, sequential coercion); 17 document templates, selection depth <= 4, lists of length 0..2, "
+    "bounds": "schema X (vf/world.py) in 11 engine configurations (default/explicit resolvers, non-null layout, type resolvers, sequential coercion, Engine()+cook() two-step instantiation); 17 document templates, selection depth <= 4, lists of length 0..2, "
               "<= 3 fragments; leaves: unbounded int / Optional[int] / Optional[bool] / opaque str (len <= 2)",
     "outside": "documents outside the template catalogue; list length > 2; Float leaves symbolic (C10); message wording",
     "explanation": "Oracle: vf/ref/execute.py (CollectFields/ExecuteSelectionSet/CompleteValue written from the spec text) run on the same symbolic values.",
@@ -32,7 +32,10 @@ _R("Query.nn", schema_name="c01_ov", parent_concurrently=False)(world.universal)
 ENGINES["ov"] = world.make_engine("c01_ov", 0, "univ")
 # all three levels of type resolution present: field-level (Query.u), type-level (Node) and a custom engine-wide default (everything else)
 ENGINES["cdt"] = world.make_engine("c01_cdt", 0, "univ", typeres=True, custom_default_type_resolver=world._tr_default)
-MODELS = {"univ": world.model(0), "plain": world.model(0), "univ_nn": world.model(7), "tres": world.model(0), "plain_tres": world.model(0), "seq": world.model(0), "plain_seq": world.model(0), "ov": world.model(0), "cdt": world.model(0)}
+# the documented two-step instantiation: Engine() then cook(sdl, ...everything...) — the options must arrive exactly as through create_engine
+ENGINES["cook"] = world.make_engine("c01_cook", 0, "univ", two_step="cook", coerce_list_concurrently=False, coerce_parent_concurrently=False)
+ENGINES["init"] = world.make_engine("c01_init", 7, "univ", two_step="init")
+MODELS = {"cook": world.model(0), "init": world.model(7), "univ": world.model(0), "plain": world.model(0), "univ_nn": world.model(7), "tres": world.model(0), "plain_tres": world.model(0), "seq": world.model(0), "plain_seq": world.model(0), "ov": world.model(0), "cdt": world.model(0)}
 
 TEMPLATES = {
     "T01": "{ n nn }",
@@ -209,6 +212,10 @@ for t in TEMPLATES:
         kinds = kinds + ["seq"]
     if t in ("T02", "T03", "T06", "T10", "T16"):
         kinds = kinds + ["plain_seq", "ov"]
+    if t in ("T05", "T10", "T13"):
+        kinds = kinds + ["cook"]
+    if t in ("T03", "T12"):
+        kinds = kinds + ["init"]
     for k in kinds:
         tns = [0, 1, 2] if t in ("T08", "T11", "T14") and k in ("univ", "plain") else [0]
         if t in ("T03", "T05", "T12") and k == "plain":
@@ -245,7 +252,7 @@ for sh_ in SHARDS:
     else:
         _split.append(sh_)
 SHARDS = _split
-QUICK = [i for i, s in enumerate(SHARDS) if (s["eng"] in ("univ",) and s["tn"] == 0) or (s["eng"] == "seq" and s["tmpl"] == "T05") or (s["eng"] in ("plain_seq", "ov") and s["tmpl"] in ("T03", "T02")) or (s["eng"] == "cdt" and s["tmpl"] == "T11" and s.get("which") == 3) or (s["tmpl"] in ("T08", "T14") and s.get("which") == 2 and s.get("nlen", 1) == 1)
+QUICK = [i for i, s in enumerate(SHARDS) if (s["eng"] in ("univ",) and s["tn"] == 0) or (s["eng"] in ("seq", "cook") and s["tmpl"] == "T05") or (s["eng"] == "init" and s["tmpl"] == "T03") or (s["eng"] in ("plain_seq", "ov") and s["tmpl"] in ("T03", "T02")) or (s["eng"] == "cdt" and s["tmpl"] == "T11" and s.get("which") == 3) or (s["tmpl"] in ("T08", "T14") and s.get("which") == 2 and s.get("nlen", 1) == 1)
          or (s["tmpl"] in ("T03", "T10", "T12") and s["eng"] == "plain" and s["tn"] == 0)]
 
 
@@ -255,7 +262,7 @@ QUICK = [i for i, s in enumerate(SHARDS) if (s["eng"] in ("univ",) and s["tn"] =
             symbolic=["n: Optional[int] (unbounded)", "m: int (unbounded)", "flag: Optional[bool]", "st: str (all strings)", "v: Optional[int]",
                       "s, i: bool via real variable coercion and the real @skip/@include hooks"],
             selectors=["t1,t2,t3: runtime type of node/u/nodes", "nlen: list length 0..2", "shard: template, engine kind, type-naming way, operation name"],
-            bounds="templates T01-T17 x engines {univ, plain, univ_nn, tres, plain_tres, seq, plain_seq, ov, cdt} x 3 type-naming ways",
+            bounds="templates T01-T17 x engines {univ, plain, univ_nn, tres, plain_tres, seq, plain_seq, ov, cdt, cook, init} x 3 type-naming ways",
             note="real Engine.execute vs reference executor: data incl. key order, error accounting, resolver call log")
 def c01_exec(s: bool, i: bool, t1: bool, t2: bool, t3: bool, n: Optional[int], m: int, flag: Optional[bool], st: str,
              v: Optional[int], nlen: int) -> bool:
